@@ -140,7 +140,7 @@ def oracle_c03(lines, cr, rr):
 def round10_ok(x, exact):
     return abs(x - exact) <= F(5, 10**11) + F(1, 10**15)
 
-def oracle_c04(lines, cr, rr, ex=None):
+def oracle_c04(lines, cr, rr, ex=None, year=None):
     fails = []
     ex = K.exemptions() if ex is None else ex
     alld = []
@@ -171,7 +171,8 @@ def oracle_c04(lines, cr, rr, ex=None):
             if abs(y["div_income"] - di) > TOLM: fails.append(("dividend_income", y["year"], float(y["div_income"]), float(di)))
             if abs(y["div_tax"] - dtx) > TOLM: fails.append(("dividend_tax", y["year"], float(y["div_tax"]), float(dtx)))
     # every sale day appears as exactly one disposal
-    sold = sorted({(l.date.toordinal(), l.tick.upper()) for l in lines if l.kind == "SELL"})
+    sold = sorted({(l.date.toordinal(), l.tick.upper()) for l in lines if l.kind == "SELL" and (year is None or K.tax_year(l.date) == year)})
+    if year is not None and [y["year"] for y in cr["years"]] != [year]: fails.append(("year_filter", year, [y["year"] for y in cr["years"]]))
     if sorted(alld) != sold: fails.append(("disposals_vs_sales", str(sorted(alld)[:5]), str(sold[:5])))
     return fails
 
@@ -194,4 +195,13 @@ def k_c03(ctx):
 def k_c04(ctx):
     what = ("proceeds", "totals", "years", "dgain")
     run_k(ctx, K.corpus_ledgers(), what, oracle=oracle_c04)
-    run_k(ctx, gen_cases(ctx, ctx.n(4000, 60000), ["mixed", "plain", "events", "noevents"]), what, oracle=oracle_c04)
+    cases = gen_cases(ctx, ctx.n(4000, 60000), ["mixed", "plain", "events", "noevents"])
+    run_k(ctx, cases, what, oracle=oracle_c04)
+    # "in every report": the same arithmetic in reports filtered to one tax year
+    byyear = defaultdict(dict)
+    for cid, lines in list(K.corpus_ledgers().items()) + list(cases.items())[:ctx.n(1200, 20000)]:
+        ys = sorted({K.tax_year(l.date) for l in lines if l.kind == "SELL"})
+        if ys: byyear[ctx.rng.choice(ys)][cid + "@y"] = lines
+    for y, cs in sorted(byyear.items()):
+        ctx.count("year_filtered_reports", y)
+        run_k(ctx, cs, what, oracle=(lambda l, cr, rr, y=y: oracle_c04(l, cr, rr, year=y)), year=y)
